@@ -12,7 +12,7 @@ from rv.verdict import h
 PROPERTY = "C12"
 LEVEL = "exploration"
 RULE = ("configurations: 2-3 sender tasks x 1-3 messages, small packets or packets above the 64000-byte I/O chunk (three writes "
-        "each), with/without re-entrant sends (1, 40 or 150 of them) from inside the first transport write. schedules: (i) systematic - a census run "
+        "each), with/without re-entrant sends (1, 40 or 150 of them) from inside the first transport write, and re-entrant sends (1 or 5) started while a message is being encoded (where a collector pass may finalize proxies). schedules: (i) systematic - a census run "
         "lists every yield point (source line of _send, lock operation, transport write); every placement of ONE delay and "
         "(2 tasks) of TWO delays is run; (ii) seeded random and PCT-style schedules. distinct = hash of the (task, yield point) "
         "switch trace; non-trivial = at least one pre-emption taken inside _send")
@@ -37,6 +37,7 @@ def one_run(cfg, seed, policy, script=(), census=False, p_switch=0.3):
     from rpyc.core import consts
     ntasks, nmsgs, big, reentrant = cfg[:4]
     poison = len(cfg) > 4 and cfg[4]
+    enc_reentrant = len(cfg) > 5 and cfg[5]
     sched = vsched.Sched(seed=seed, policy=policy, script=script, p_switch=p_switch, max_steps=60000)
     sched.record_census = census
     net = vnet.Net(waiter=vsched.SchedWaiter(sched))
@@ -57,6 +58,22 @@ def one_run(cfg, seed, policy, script=(), census=False, p_switch=0.3):
                 conn._send(consts.MSG_REQUEST, 900 + k, ("re", k, b"r"))
     net.on_write = on_write
 
+    # the same, but started while a message is being ENCODED (the collector may run at any bytecode boundary of the encoder and
+    # finalize proxies there): the text dumper of the serializer fires the re-entrant sends when it meets the marker string
+    from rpyc.core import brine
+    orig_str_dumper = brine._dump_registry[str]
+    fired_enc = []
+
+    def str_dumper(obj, stream):
+        if enc_reentrant and obj == ENC_MARK and not fired_enc:
+            fired_enc.append(1)
+            for k in range(int(enc_reentrant)):
+                sent.append(("enc", k))
+                conn._send(consts.MSG_REQUEST, 1500 + k, ("enc", k, b"e", "tail"))
+        orig_str_dumper(obj, stream)
+    if enc_reentrant:
+        brine._dump_registry[str] = str_dumper
+
     refused = []
     wrongly_failed = []
 
@@ -74,7 +91,10 @@ def one_run(cfg, seed, policy, script=(), census=False, p_switch=0.3):
                     refused.append(type(e).__name__)
             sent.append((t, i))
             try:
-                conn._send(consts.MSG_REQUEST, t * 10 + i, (t, i, pad))
+                if enc_reentrant and t == 0 and i == 0:
+                    conn._send(consts.MSG_REQUEST, t * 10 + i, (t, i, "head", ENC_MARK, pad))
+                else:
+                    conn._send(consts.MSG_REQUEST, t * 10 + i, (t, i, pad))
             except vsched.SchedAbort:
                 raise
             except Exception as e:
@@ -83,7 +103,10 @@ def one_run(cfg, seed, policy, script=(), census=False, p_switch=0.3):
     for t in range(ntasks):
         sched.spawn(sender, t, name="s%d" % t)
     instrument(sched)
-    ok = sched.run(watchdog=30)
+    try:
+        ok = sched.run(watchdog=30)
+    finally:
+        brine._dump_registry[str] = orig_str_dumper
     vsched.Sched.uninstrument(_codes)
     res = dict(cfg=cfg, seed=seed, policy=policy, script=list(script), bad=[])
     bad = res["bad"]
@@ -117,7 +140,7 @@ def one_run(cfg, seed, policy, script=(), census=False, p_switch=0.3):
                 bad.append(("message-lost", "messages %r were never transmitted" % (missing[:3],)))
             if dup:
                 bad.append(("message-duplicated", "messages %r were transmitted twice" % (dup[:3],)))
-        for t in list(range(ntasks)) + ["re"]:
+        for t in list(range(ntasks)) + ["re", "enc"]:
             mine = [i for (tt, i) in got if tt == t]
             if mine != sorted(mine):
                 bad.append(("order", "messages of one thread left out of order: %r" % (mine,)))
@@ -133,12 +156,17 @@ def one_run(cfg, seed, policy, script=(), census=False, p_switch=0.3):
         if len(returned) != ntasks:
             bad.append(("sender-never-returned", "only %d of %d senders returned" % (len(returned), ntasks)))
     res.update(trace=sched.trace_hash(), preemptions=sched.preemptions, steps=sched.steps, census=sched.census,
-               maxq=0, reentrant_fired=bool(fired))
+               maxq=0, reentrant_fired=bool(fired), enc_reentrant_fired=bool(fired_enc))
     return res
 
 
 import sys as _sys
+ENC_MARK = "collector-runs-here"
 POISON = 10 ** ((_sys.get_int_max_str_digits() if hasattr(_sys, "get_int_max_str_digits") and _sys.get_int_max_str_digits() else 4300) + 50)
+
+
+def big_for_enc(ntasks):
+    return ntasks == 3
 
 
 def configs(rng, quick):
@@ -154,6 +182,9 @@ def configs(rng, quick):
         # one sender also issues a message that cannot be encoded, between the others
         out.append((ntasks, (2, 2, 1)[:ntasks], False, False, True))
         out.append((ntasks, (1, 1, 2)[:ntasks], True, True, True))
+        # re-entrant sends started while a message is being encoded (1 or 5 of them), with and without those from inside the write
+        out.append((ntasks, (1, 1, 1)[:ntasks], False, False, False, 1))
+        out.append((ntasks, (2, 1, 1)[:ntasks], big_for_enc(ntasks), True, False, 5))
     return out
 
 
@@ -164,6 +195,8 @@ def record(ctx, res):
     ctx.count("yield_points", res["steps"])
     if res["reentrant_fired"]:
         ctx.count("reentrant_sends")
+    if res.get("enc_reentrant_fired"):
+        ctx.count("reentrant_sends_from_inside_the_encoder")
     if res.get("inconclusive"):
         ctx.inconclusive(res["inconclusive"])
     for key, what in res["bad"]:
@@ -214,7 +247,7 @@ def run(ctx):
             ctx.sample({"cfg": cfg, "policy": policy, "preemptions": res["preemptions"], "yield_points": res["steps"]})
         if ctx.enough():
             break
-    if not ctx.counters["preemptions_taken"] or not ctx.counters["reentrant_sends"]:
+    if not ctx.counters["preemptions_taken"] or not ctx.counters["reentrant_sends"] or not ctx.counters["reentrant_sends_from_inside_the_encoder"]:
         ctx.inconclusive("no pre-emption / no re-entrant send was exercised")
 
 
